@@ -98,11 +98,17 @@ def main(tier, seed, t0):
     by = {}
     for r in recs:
         by.setdefault(r['crate'], []).append(r)
-    import multiprocessing
+    import concurrent.futures as cf
     clean = {}
-    with multiprocessing.Pool(min(16, max(1, len(by)))) as pool:
-        for m in pool.imap_unordered(clean_worker, [(os.path.join(d, 'facts', c + '.json'), rs) for c, rs in by.items() if os.path.exists(os.path.join(d, 'facts', c + '.json'))]):
-            clean.update(m)
+    cjobs = [(os.path.join(d, 'facts', c + '.json'), rs) for c, rs in by.items() if os.path.exists(os.path.join(d, 'facts', c + '.json'))]
+    try:
+        with cf.ProcessPoolExecutor(max_workers=min(16, max(1, len(cjobs)))) as ex:
+            for m in ex.map(clean_worker, cjobs):
+                clean.update(m)
+    except cf.process.BrokenProcessPool:
+        clean = {}
+        for j in cjobs:
+            clean.update(clean_worker(j))
     hctx, n = runner.run_instances('props.c16', hd, extra={'clean': clean})
     ctx.merge(hctx)
     ctx.sample({'templates_linted': n_t, 'fixture_flags': flagged})
